@@ -24,6 +24,7 @@ func checkC03(c *Ctx, r *Report) {
 	c03c(c, r)
 	c03d(c, r)
 	c03e(c, r)
+	c03Flows(c, r)
 	c03f(c, r)
 	c03g(c, r)
 	c03h(c, r)
@@ -46,8 +47,8 @@ func c03h(c *Ctx, r *Report) {
 		{"CaclIncludeRelation", "includes: symbol match ∧ nullable suffix ∧ path p' --β--> p ∧ transition (p', B) exists", [][]string{
 			{"Symbols[", "sym_or_rule]", "elem(", "RighPart)", " == "},
 			{"seqenceCanEpsilon(", "RighPart[(key(", " + 1):])"},
-			{"walk(", "RighPart[:key(", ".q"},
-			{"nil"}}},
+			{"walk(", "RighPart[:key(", ".q", " == "},
+			{"nil", " == "}}},
 		{"calcReadsRelation", "reads: candidate leaves the successor state ∧ its symbol is a nullable nonterminal", [][]string{
 			{".q", ".to", " == "},
 			{"isNonAndEpsilonSymIndex(", "sym_or_rule)"}}},
@@ -87,7 +88,14 @@ func c03h(c *Ctx, r *Report) {
 					continue
 				}
 				all := true
+				wantNeg := len(w) > 0 && w[0] == "¬"
+				if strings.HasPrefix(a, "!") != wantNeg || strings.HasPrefix(a, "no-earlier-element-with(") {
+					all = false
+				}
 				for _, sub := range w {
+					if sub == "¬" {
+						continue
+					}
 					if !strings.Contains(a, sub) {
 						all = false
 					}
@@ -158,6 +166,181 @@ func c03g(c *Ctx, r *Report) {
 		r.Check(ok, clause, "R1 PROVENANCE", f.Name+"/digraph-stage", c.pos(call.Pos()),
 			fmt.Sprintf("closes %s under %s() into %s", strings.TrimPrefix(st.seed, "."), st.rel, strings.TrimPrefix(st.out, "&$")),
 			fmt.Sprintf("this stage calls Digraph(_, %s, %s, %s); the DeRemer–Pennello pipeline requires the relation %s(), the seed sets %s and the result %s — seeding from another stage's sets loses (or invents) lookaheads for particular grammar shapes only", rel, seed, out, st.rel, st.seed, st.out))
+	}
+	// every stage hands Digraph ALL its start nodes: X collects the key of every entry of the seed map (reads, includes)
+	// resp. the index of every reduce transition (lookback), unconditionally
+	for _, st := range []struct{ fn, over string }{{"CalcReadSet", "DRSet"}, {"CalcFollowSet", "ReadSet"}, {"CalcLookAheadSet", "fetchReduceTransistor"}} {
+		f := c.need(r, clause, "LALR", "LALR1", st.fn)
+		if f == nil {
+			continue
+		}
+		cf := newCoverFn(f)
+		info := cf.info
+		var dcall *ast.CallExpr
+		ast.Inspect(f.Decl.Body, func(nd ast.Node) bool {
+			if cl, ok := nd.(*ast.CallExpr); ok {
+				if fn := callee(info, cl); fn != nil && fn.Name() == "Digraph" {
+					dcall = cl
+				}
+			}
+			return true
+		})
+		why := "no Digraph call"
+		if dcall != nil && len(dcall.Args) == 4 {
+			xObj := identObj(info, dcall.Args[0])
+			why = "no loop over " + st.over + " that appends every element's key to the node list handed to Digraph"
+			for _, rs := range cf.rangesOver(nil, func(e ast.Expr) bool {
+				if fieldNamed(info, e, st.over) {
+					return true
+				}
+				if call, ok := e.(*ast.CallExpr); ok {
+					if fn := callee(info, call); fn != nil && fn.Name() == st.over {
+						return true
+					}
+				}
+				return false
+			}) {
+				if rs.Pos() > dcall.Pos() || !cf.unconditional(rs, f.Decl.Body) || !noSkips(rs.Body) {
+					continue
+				}
+				// the node: the range key (maps) or <value>.Index (transition list)
+				isNode := func(e ast.Expr) bool {
+					if rs.Value == nil {
+						return identObj(info, e) != nil && identObj(info, e) == identObj(info, rs.Key)
+					}
+					return cf.selOn(e, "Index", identObj(info, rs.Value))
+				}
+				for _, bs := range rs.Body.List {
+					as, ok := bs.(*ast.AssignStmt)
+					if !ok || len(as.Lhs) != 1 || len(as.Rhs) != 1 || identObj(info, as.Lhs[0]) != xObj || xObj == nil {
+						continue
+					}
+					if call, ok := unparen(as.Rhs[0]).(*ast.CallExpr); ok && builtinName(info, call) == "append" && len(call.Args) == 2 && identObj(info, call.Args[0]) == xObj && isNode(call.Args[1]) {
+						why = ""
+					}
+				}
+			}
+		}
+		r.Check(why == "", clause, "R2 COVERAGE", f.Name+"/all-start-nodes", c.pos(f.Decl.Pos()),
+			"the node list given to Digraph holds every "+st.over+" entry (unconditional loop, no element skipped)", why)
+	}
+	// DR: every nonterminal transition gets its direct-read set, and the end marker is ADDED to transition 0's own set
+	if f := c.need(r, clause, "LALR", "LALR1", "CalcDR"); f != nil {
+		cf := newCoverFn(f)
+		info := cf.info
+		why := "no loop over all transitions"
+		for _, rs := range cf.rangesOver(nil, func(e ast.Expr) bool { return fieldNamed(info, e, "trans") }) {
+			tr := identObj(info, rs.Value)
+			if tr == nil || !cf.unconditional(rs, f.Decl.Body) || !noSkips(rs.Body) {
+				why = "the loop over the transitions is conditional or can skip one"
+				continue
+			}
+			why = "no store DRSet[<transition>.Index] = fetchOneDr(<transition>) guarded by exactly isNonSymIndex(<its symbol>)"
+			ast.Inspect(rs.Body, func(n ast.Node) bool {
+				as, ok := n.(*ast.AssignStmt)
+				if !ok || len(as.Lhs) != 1 || len(as.Rhs) != 1 {
+					return true
+				}
+				ix, ok := unparen(as.Lhs[0]).(*ast.IndexExpr)
+				if !ok || !fieldNamed(info, ix.X, "DRSet") || !cf.selOn(ix.Index, "Index", tr) {
+					return true
+				}
+				isFetch := func(e ast.Expr) bool {
+					call, ok := unparen(e).(*ast.CallExpr)
+					if !ok {
+						return false
+					}
+					fn := callee(info, call)
+					return fn != nil && fn.Name() == "fetchOneDr" && len(call.Args) == 1 && identObj(info, call.Args[0]) == tr
+				}
+				okVal := isFetch(as.Rhs[0])
+				if o := identObj(info, as.Rhs[0]); o != nil && !okVal {
+					// a local that holds fetchOneDr(tr), possibly remembered in a map (memoisation): every definition of
+					// the local in the loop body is the call itself or a read of a map into which only that local is stored
+					fetches, other := 0, false
+					ast.Inspect(rs.Body, func(m ast.Node) bool {
+						d, ok := m.(*ast.AssignStmt)
+						if !ok {
+							return true
+						}
+						for i, l := range d.Lhs {
+							if identObj(info, l) != o {
+								continue
+							}
+							var rhs ast.Expr
+							if len(d.Lhs) == len(d.Rhs) {
+								rhs = d.Rhs[i]
+							} else if len(d.Rhs) == 1 {
+								rhs = d.Rhs[0]
+							}
+							switch {
+							case rhs != nil && isFetch(rhs):
+								fetches++
+							case rhs != nil:
+								if ix, ok := unparen(rhs).(*ast.IndexExpr); ok {
+									mo := identObj(info, ix.X)
+									onlySelf := mo != nil
+									ast.Inspect(f.Decl.Body, func(k ast.Node) bool {
+										if st, ok := k.(*ast.AssignStmt); ok && len(st.Lhs) == 1 && len(st.Rhs) == 1 {
+											if sx, ok := unparen(st.Lhs[0]).(*ast.IndexExpr); ok && identObj(info, sx.X) == mo && identObj(info, st.Rhs[0]) != o {
+												onlySelf = false
+											}
+										}
+										return true
+									})
+									if !onlySelf {
+										other = true
+									}
+								} else {
+									other = true
+								}
+							}
+						}
+						return true
+					})
+					okVal = fetches >= 1 && !other
+				}
+				if !okVal {
+					return true
+				}
+				atoms := guardAtoms(c, f, as)
+				if len(atoms) == 1 && strings.Contains(atoms[0], "isNonSymIndex(") && !strings.HasPrefix(atoms[0], "!") && strings.Contains(atoms[0], "sym_or_rule") {
+					why = ""
+				} else {
+					why = fmt.Sprintf("the direct-read set is stored under the guard %v, not exactly `the transition's symbol is a nonterminal`", atoms)
+				}
+				return true
+			})
+			if why == "" {
+				break
+			}
+		}
+		r.Check(why == "", clause, "R2 COVERAGE", f.Name+"/every-nonterminal-transition-gets-DR", c.pos(f.Decl.Pos()),
+			"DRSet[t] = fetchOneDr(t) for every transition t on a nonterminal, and for no other", why)
+		// DRSet[0] = append(DRSet[0], end marker)
+		ok := false
+		ast.Inspect(f.Decl.Body, func(n ast.Node) bool {
+			as, isA := n.(*ast.AssignStmt)
+			if !isA || len(as.Lhs) != 1 || len(as.Rhs) != 1 {
+				return true
+			}
+			ix, isI := unparen(as.Lhs[0]).(*ast.IndexExpr)
+			if !isI || !fieldNamed(info, ix.X, "DRSet") {
+				return true
+			}
+			if v, isC := constInt(info, ix.Index); !isC || v != 0 {
+				return true
+			}
+			if call, isC := unparen(as.Rhs[0]).(*ast.CallExpr); isC && builtinName(info, call) == "append" && len(call.Args) >= 2 {
+				if exprString(call.Args[0]) == exprString(as.Lhs[0]) && cf.unconditional(as, f.Decl.Body) {
+					ok = true
+				}
+			}
+			return true
+		})
+		r.Check(ok, clause, "R1 PROVENANCE", f.Name+"/end-marker-added-to-own-set", c.pos(f.Decl.Pos()),
+			"the end marker is appended to transition 0's own direct-read set (DRSet[0] = append(DRSet[0], …)), unconditionally",
+			"the end marker is not appended onto DRSet[0] itself: transition 0 loses its direct reads or receives another transition's")
 	}
 	// the relation constructors use the matching per-transition function for every transition
 	for _, pr := range [][2]string{{"CalcAllReadRelations", "calcReadsRelation"}, {"CaclIncludes", "CaclIncludeRelation"}} {
@@ -535,8 +718,140 @@ func c03c(c *Ctx, r *Report) {
 	}
 }
 
+// c03TransEncoding — how BuildTrans writes a transition is how every reader decodes it: a goto entry g of state s
+// becomes {q: s.Index, sym_or_rule: g.Sym.ID, to: g.ItemCl}; a completed item (Dot == length of its own rule) of
+// state s becomes {q: s.Index, sym_or_rule: RuleIndex | CheckMask, to: MaxInt}; CheckMask is a single bit and Mask
+// its complement, so `x&CheckMask != 0` tells the two kinds apart and `x&Mask` returns the rule.
+func c03TransEncoding(c *Ctx, r *Report, f *FuncRef) {
+	const clause = "C03.c"
+	cf := newCoverFn(f)
+	info := cf.info
+	key := f.Name + "/transition-encoding"
+	p := c.Pkg("LALR")
+	cm, ok1 := pkgConst(p, "CheckMask")
+	mk, ok2 := pkgConst(p, "Mask")
+	if !ok1 || !ok2 {
+		r.Undecided(clause, "R4 DECISION-TABLE", key, c.pos(f.Decl.Pos()), "constants CheckMask / Mask not found")
+		return
+	}
+	cmv, _ := constant.Uint64Val(constant.ToInt(cm))
+	mkv, _ := constant.Uint64Val(constant.ToInt(mk))
+	why := ""
+	if cmv == 0 || cmv&(cmv-1) != 0 || cmv < 1<<20 {
+		why = fmt.Sprintf("CheckMask (%d) is not a single bit above every symbol number", cmv)
+	} else if mkv != ^cmv {
+		why = "Mask is not the complement of CheckMask"
+	}
+	var gotoLit, redLit *ast.CompositeLit
+	var gotoRS, redRS *ast.RangeStmt
+	ast.Inspect(f.Decl.Body, func(n ast.Node) bool {
+		cl, ok := n.(*ast.CompositeLit)
+		if !ok {
+			return true
+		}
+		if t := info.TypeOf(cl); t == nil || !strings.HasSuffix(t.String(), "Transistor") {
+			return true
+		}
+		for cur := cf.pm[cl]; cur != nil; cur = cf.pm[cur] {
+			if rs, ok := cur.(*ast.RangeStmt); ok {
+				if fieldNamed(info, rs.X, "GoTo") && gotoLit == nil {
+					gotoLit, gotoRS = cl, rs
+				}
+				if fieldNamed(info, rs.X, "Items") && redLit == nil {
+					redLit, redRS = cl, rs
+				}
+				if fieldNamed(info, rs.X, "GoTo") || fieldNamed(info, rs.X, "Items") {
+					break
+				}
+			}
+		}
+		return true
+	})
+	field := func(cl *ast.CompositeLit, name string) ast.Expr {
+		for _, el := range cl.Elts {
+			if kv, ok := el.(*ast.KeyValueExpr); ok {
+				if id, ok := kv.Key.(*ast.Ident); ok && id.Name == name {
+					return kv.Value
+				}
+			}
+		}
+		return nil
+	}
+	stateOf := func(rs *ast.RangeStmt) types.Object {
+		// the enclosing loop over the states
+		for cur := cf.pm[rs]; cur != nil; cur = cf.pm[cur] {
+			if outer, ok := cur.(*ast.RangeStmt); ok {
+				return identObj(info, outer.Value)
+			}
+		}
+		return nil
+	}
+	if why == "" {
+		switch {
+		case gotoLit == nil || redLit == nil:
+			why = "the two transition literals (inside the loops over GoTo and Items) were not found"
+		default:
+			g, st := identObj(info, gotoRS.Value), stateOf(gotoRS)
+			if q := field(gotoLit, "q"); q == nil || !cf.selOn(q, "Index", st) {
+				why = "a goto transition's source is not the state it was found in"
+			}
+			if sy := field(gotoLit, "sym_or_rule"); sy == nil {
+				why = "a goto transition has no symbol"
+			} else if se, ok := cf.resolve(sy).(*ast.SelectorExpr); !ok || !fieldNamed(info, se, "ID") || !cf.selOn(se.X, "Sym", g) {
+				why = "a goto transition's symbol is not the ID of the goto entry's own symbol"
+			}
+			if to := field(gotoLit, "to"); to == nil || !cf.selOn(to, "ItemCl", g) {
+				why = "a goto transition's target is not the goto entry's own target state"
+			}
+			it, st2 := identObj(info, redRS.Value), stateOf(redRS)
+			if q := field(redLit, "q"); q == nil || !cf.selOn(q, "Index", st2) {
+				why = "a reduce transition's source is not the state that holds the completed item"
+			}
+			if to := field(redLit, "to"); to != nil {
+				if cv := constOf(info, to); cv == nil {
+					why = "a reduce transition's target is not the constant MaxInt"
+				}
+			}
+			// guard and value through the path enumerator (the value is built in two steps)
+			pe := newPathEnum(info)
+			if it != nil {
+				pe.rename[it] = "IT"
+			}
+			paths, err := pe.Enumerate(redRS.Body.List)
+			if err != nil {
+				why = err.Error()
+			}
+			nApp := 0
+			for _, p := range paths {
+				for _, e := range p.Effects {
+					var vals []*Term
+					collectFieldOfComposite(e.Term, "Transistor", "sym_or_rule", &vals)
+					for _, v := range vals {
+						nApp++
+						want1 := fmt.Sprintf("(IT.RuleIndex | %d)", cmv)
+						want2 := fmt.Sprintf("(%d | IT.RuleIndex)", cmv)
+						if v.String() != want1 && v.String() != want2 {
+							why = "a reduce transition is encoded as `" + v.String() + "`, not as <rule index of the item> | CheckMask: readers test `&CheckMask != 0` and take `&Mask` as the rule"
+						}
+						okGuard := len(p.Conds) == 1 && p.Conds[0].Pol && strings.HasPrefix(p.Conds[0].Atom.String(), "(IT.Dot == len(") && strings.Contains(p.Conds[0].Atom.String(), "[IT.RuleIndex].RighPart)")
+						if !okGuard {
+							why = "a reduce transition is recorded under `" + p.CondString() + "`, not exactly when the dot is at the end of the item's own rule"
+						}
+					}
+				}
+			}
+			if why == "" && nApp != 1 {
+				why = fmt.Sprintf("%d paths of the item loop record a reduce transition, expected one", nApp)
+			}
+		}
+	}
+	r.Check(why == "", clause, "R4 DECISION-TABLE", key, c.pos(f.Decl.Pos()),
+		"goto entry → {state, symbol id, target}; completed item → {state, rule | CheckMask, MaxInt}; CheckMask is one high bit and Mask its complement", why)
+}
+
 func c03BuildTrans(c *Ctx, r *Report, f *FuncRef) {
 	const clause = "C03.c"
+	c03TransEncoding(c, r, f)
 	info := f.Pkg.TypesInfo
 	// the two places that append transitions: inside a loop over a state's GoTo list and inside a loop over its
 	// Items. They may sit in two top-level loops (goto loop first) or in one loop over the states (goto part first):
